@@ -1,7 +1,6 @@
 package rules
 
 import (
-	"fmt"
 	"strings"
 
 	"golang.org/x/tools/go/ssa"
@@ -15,16 +14,12 @@ func c16(e *Env) {
 	r := e.R
 	r.Explanation = "Structural conditions for 'only fully wired workflows run; RunTo runs the upstream closure': (R1) in runProcs the readiness test of every process of the run set - including the driver - has completed on every path before the first goroutine is started; a Ready() that returns false makes a never-returning call inevitable before any process starts; BaseProcess.Ready examines all four port maps and an unconnected port is fatal; (R2) the upstream-closure function ranges the in-ports AND the parameter in-ports of a process, over all their remote ports (complete loops), adds each remote's process to the result and recurses into it; RunToProcs adds the targets themselves; (R3) the recursion is cycle-safe: it is guarded by a visited test on the same process it recurses into; (R4) connections to processes outside the run set are cut for out-ports and parameter out-ports alike and every dangling port is wired to the sink (every connection examined); (R5) every process of the run set is started exactly once, the driver only synchronously (shared with C04.R5/R6)."
 	r.NotDecided = "which commands actually execute for a concrete graph; name-based matching of RunToRegex."
-	p := e.P
-	rp := p.DeclaredMethod("scipipe", "Workflow", "runProcs")
-	if rp == nil {
-		r.Ob("R1", "runProcs", "anchor").Unknown("-", "(*Workflow).runProcs not found")
-		return
-	}
-	g := e.XG(rp)
+	g := e.runRoot()
 	if g == nil {
+		r.Ob("R1", "runProcs", "anchor").Unknown("-", "(*Workflow).Run not found")
 		return
 	}
+	rootName := "(*Workflow).Run"
 	// ---- R1 readiness before spawn
 	isReady := func(n *core.Node) bool {
 		return n.Call != nil && n.Call.IsInvoke() && n.Call.Method.Name() == "Ready" && !n.IsGo
@@ -34,8 +29,8 @@ func c16(e *Env) {
 	ob1 := r.Ob("R1", "runProcs:Ready=false⇒exit", "a process that is not ready makes a never-returning call inevitable before any process is started")
 	ob1b := r.Ob("R1", "runProcs:ready≺go", "the readiness test of every process of the run set has completed on every path before the first goroutine is started")
 	if len(readys) == 0 {
-		ob1.Fail(core.FuncName(rp), "runProcs' call tree never asks a process whether it is Ready(): an unconnected port is only noticed as a hang after commands have run")
-		ob1b.Fail(core.FuncName(rp), "no readiness test")
+		ob1.Fail(rootName, "runProcs' call tree never asks a process whether it is Ready(): an unconnected port is only noticed as a hang after commands have run")
+		ob1b.Fail(rootName, "no readiness test")
 	}
 	allReady := func(m *core.Node) (core.AV, bool) {
 		if isReady(m) {
@@ -55,9 +50,9 @@ func c16(e *Env) {
 			ob1.OK(g.Where(n), "not ready ⇒ exit before any start")
 		}
 		// the test ranges the whole run set: element of the map parameter, loop complete under Ready()=true
-		recv := e.symbolizer().InCtx(n.Ctx, n.Call.Value).String()
-		if !strings.Contains(recv, "val∈$procs") {
-			ob1b.Fail(g.Where(n), "the readiness test is applied to "+recv+", not to every element of the run set given to runProcs")
+		recv := e.xsym().InCtx(n.Ctx, n.Call.Value).String()
+		if !strings.HasPrefix(recv, "val∈") || !strings.Contains(recv, "procs") {
+			ob1b.Fail(g.Where(n), "the readiness test is applied to "+recv+", not to every element of the run set")
 			continue
 		}
 		top := n
@@ -90,8 +85,8 @@ func c16(e *Env) {
 	delDrv := false
 	for _, n := range g.Nodes {
 		if n.IsBuiltin("delete") {
-			k := e.argSym(n, 1).String()
-			m := e.argSym(n, 0).String()
+			k := e.xargSym(n, 1).String()
+			m := e.xargSym(n, 0).String()
 			if strings.Contains(k, ".driver") && (m == "$procs" || strings.HasSuffix(m, ".procs")) {
 				delDrv = true
 			}
@@ -99,17 +94,17 @@ func c16(e *Env) {
 	}
 	explicit := false
 	for _, n := range readys {
-		if strings.Contains(e.symbolizer().InCtx(n.Ctx, n.Call.Value).String(), ".driver") {
+		if strings.Contains(e.xsym().InCtx(n.Ctx, n.Call.Value).String(), ".driver") {
 			explicit = true
 		}
 	}
 	switch {
 	case !delDrv:
-		obD.OK(core.FuncName(rp), "the driver is not removed from the run set before the readiness test")
+		obD.OK(rootName, "the driver is not removed from the run set before the readiness test")
 	case explicit:
-		obD.OK(core.FuncName(rp), "driver removed from the set but tested explicitly")
+		obD.OK(rootName, "driver removed from the set but tested explicitly")
 	default:
-		obD.Fail(core.FuncName(rp), "the driver is deleted from the run set before the readiness test and never tested itself: a driver with an unconnected in-port is only noticed as a hang after upstream commands have run")
+		obD.Fail(rootName, "the driver is deleted from the run set before the readiness test and never tested itself: a driver with an unconnected in-port is only noticed as a hang after upstream commands have run")
 	}
 	e.c16BaseReady()
 	// ---- R2/R3 upstream closure
@@ -120,34 +115,9 @@ func c16(e *Env) {
 	e.spawnRules("R5", "R5")
 }
 
-// forAllOutputs2 is forAllOutputs without the structural early-exit test (the loop may contain
-// `return false` branches that the given assumption makes infeasible).
+// forAllOutputs2 is kept as an alias: forAllOutputs now judges early exits by what happens after them.
 func (e *Env) forAllOutputs2(ob *core.Obligation, g *core.XG, action *core.Node, isAction func(*core.Node) bool, assume core.Scenario, what string) bool {
-	head := loopHeadNext(g, action)
-	if head == nil {
-		ob.Fail(g.Where(action), what+" is not inside a range loop over the run set")
-		return false
-	}
-	sc := assume
-	sc.Start = head
-	sc.Result = core.TupleAV(core.BoolAV(true), core.Top, core.Top)
-	res := g.Run(sc)
-	if w := res.ReachesAvoiding(func(m *core.Node) bool { return m == head }, isAction); w != nil {
-		ob.Fail(g.Where(action), what+": an iteration can reach the next one without performing it")
-		return false
-	}
-	// under the assumption, the loop is left only through its header
-	l := core.InnermostLoop(action.Instr)
-	exits, _ := loopExitNodes(g, action)
-	ex := nodeSet(exits)
-	bad := res.ReachesAvoiding(func(m *core.Node) bool {
-		return m.Ctx == action.Ctx && m.Instr != nil && m.Instr.Block() != nil && !l.Blocks[m.Instr.Block()] && !ex[m] && m.Kind != core.KExit
-	}, func(m *core.Node) bool { return ex[m] })
-	if bad != nil {
-		ob.Fail(g.Where(action), what+": the loop can be left early at "+g.Where(bad)+" although every element passed the test")
-		return false
-	}
-	return true
+	return e.forAllOutputs(ob, g, action, isAction, assume, what)
 }
 
 func (e *Env) c16BaseReady() {
@@ -225,139 +195,129 @@ func (e *Env) c16Closure() {
 		ob2t.Unknown("-", "RunToProcs not found")
 		return
 	}
-	sy := e.symbolizer()
+	g := e.XG(rtp)
+	if g == nil {
+		return
+	}
+	xs := e.xsym()
 	foundT := false
-	for _, b := range rtp.Blocks {
-		for _, in := range b.Instrs {
-			if mu, ok := in.(*ssa.MapUpdate); ok {
-				k, v := sy.InFunc(rtp, mu.Key).String(), sy.InFunc(rtp, mu.Value).String()
-				if strings.Contains(v, "$finalProcs[") && strings.Contains(k, "Name(") {
-					foundT = true
-					okL := true
-					for _, l := range core.LoopsOf(mu) {
-						if ex := p.EarlyExits(l); len(ex) > 0 {
-							okL = false
-						}
-					}
-					ob2t.Check(okL, e.where(mu), "procsToRun["+k+"] = "+v, "the loop adding the targets can be left early")
+	for _, n := range g.Nodes {
+		mu, ok := n.Instr.(*ssa.MapUpdate)
+		if !ok {
+			continue
+		}
+		k, v := xs.InCtx(n.Ctx, mu.Key).String(), xs.InCtx(n.Ctx, mu.Value).String()
+		if strings.Contains(v, "$finalProcs[") && strings.Contains(k, "Name(") && !strings.Contains(v, "RemotePorts") {
+			foundT = true
+			okL := true
+			for _, la := range iterLoops(g, n) {
+				if !e.loopHarmlessExits(g, la) {
+					okL = false
 				}
 			}
+			ob2t.Check(okL && len(iterLoops(g, n)) > 0, g.Where(n), "runset["+trunc(k, 60)+"] = "+trunc(v, 60), "the loop adding the targets can be left early or is missing")
 		}
 	}
 	if !foundT {
 		ob2t.Fail(core.FuncName(rtp), "RunToProcs does not add the target processes to the run set")
 	}
-	// the closure function: self-recursive function reachable from RunToProcs that ranges RemotePorts
-	reach := p.Reachable(rtp)
-	var closure *ssa.Function
-	for fn := range reach {
-		if !p.IsLib(fn) || fn.Blocks == nil {
+	// the upstream traversal: the recursion-cut call nodes of the expanded CFG (a function already on the
+	// context chain is called again) whose argument is the process of a remote port
+	type rec struct {
+		n   *core.Node
+		arg *core.Sym
+	}
+	var recs []rec
+	for _, n := range g.Nodes {
+		if !n.Recursive || n.Call == nil {
 			continue
 		}
-		selfRec, rangesRemote := false, false
-		for _, b := range fn.Blocks {
-			for _, in := range b.Instrs {
-				if c, ok := in.(*ssa.Call); ok && c.Call.StaticCallee() == fn {
-					selfRec = true
-				}
-				if rg, ok := in.(*ssa.Range); ok {
-					if f := fieldOfLoad(rg.X); f != nil && f.Name() == "RemotePorts" {
-						rangesRemote = true
-					}
-				}
+		for _, a := range n.Call.Args {
+			s := xs.InCtx(n.Ctx, a)
+			if strings.Contains(s.String(), ".RemotePorts") && strings.Contains(s.String(), "Process(") {
+				recs = append(recs, rec{n, s})
 			}
-		}
-		if selfRec && rangesRemote {
-			if closure != nil && closure != fn {
-				r.Ob("R2", "closure", "anchor").Unknown("-", "several candidate closure functions")
-				return
-			}
-			closure = fn
 		}
 	}
-	if closure == nil {
-		r.Ob("R2", "closure", "the upstream closure is computed by a recursive traversal of the remote ports").Unknown(core.FuncName(rtp), "no self-recursive function ranging RemotePorts reachable from RunToProcs")
+	if len(recs) == 0 {
+		r.Ob("R2", "closure", "the upstream closure is computed by a recursive traversal of the remote ports").Unknown(core.FuncName(rtp), "no recursive call taking the process of a remote port in RunToProcs' call tree")
 		return
 	}
 	for _, kind := range []struct{ key, ports string }{{"InPorts", "invoke:InPorts("}, {"InParamPorts", "invoke:InParamPorts("}} {
 		ob2 := r.Ob("R2", "closure:"+kind.key, "for every remote port of every "+kind.key[:len(kind.key)-1]+" the remote's process is added to the closure and the traversal recurses into it")
 		ob3 := r.Ob("R3", "closure:cycle-safe#"+kind.key, "the recursion is guarded by a visited test on the very process it recurses into (a process that is upstream of itself, as with FromStr, terminates)")
-		var recs []*ssa.Call
-		for _, b := range closure.Blocks {
-			for _, in := range b.Instrs {
-				if c, ok := in.(*ssa.Call); ok && c.Call.StaticCallee() == closure {
-					arg := sy.InFunc(closure, c.Call.Args[0]).String()
-					if strings.Contains(arg, kind.ports) && strings.Contains(arg, ".RemotePorts") {
-						recs = append(recs, c)
-					}
+		n0 := 0
+		for _, rc := range recs {
+			argS := rc.arg.String()
+			if !strings.Contains(argS, kind.ports) {
+				continue
+			}
+			n0++
+			c := rc.n
+			// loops along the chain, up to (not including) the first occurrence of the recursive function
+			las := iterLoops(g, c)
+			nLoops, okL := 0, true
+			for _, la := range las {
+				coll := e.loopCollection(g, la)
+				if !(strings.Contains(coll, "RemotePorts") || strings.Contains(coll, kind.ports)) {
+					continue
 				}
-			}
-		}
-		if len(recs) == 0 {
-			ob2.Fail(core.FuncName(closure), "the traversal does not recurse through the "+kind.key+": processes connected only through such ports are missing from the RunTo closure (their consumers block forever)")
-			ob3.Unknown(core.FuncName(closure), "no recursion for this port kind")
-			continue
-		}
-		for _, c := range recs {
-			arg := sy.InFunc(closure, c.Call.Args[0])
-			argS := arg.String()
-			// loops complete
-			okL := true
-			loops := core.LoopsOf(c)
-			if len(loops) < 2 {
-				okL = false
-				ob2.Fail(e.where(c), "the recursion is not nested in loops over the ports and their remote ports")
-			}
-			for _, l := range loops {
-				if ex := p.EarlyExits(l); len(ex) > 0 {
+				nLoops++
+				if !e.loopHarmlessExits(g, la) {
 					okL = false
-					ob2.Fail(e.where(c), "a loop of the traversal can be left early: "+ex[0])
+					ob2.Fail(g.Where(c), "a loop of the traversal can be left early")
 				}
 			}
-			// the same process is added to the result map
+			if nLoops < 2 {
+				okL = false
+				ob2.Fail(g.Where(c), "the recursion is not nested in loops over the ports and over their remote ports")
+			}
+			// the process recursed into is added to the result
 			added := false
-			for _, b := range closure.Blocks {
-				for _, in := range b.Instrs {
-					if mu, ok := in.(*ssa.MapUpdate); ok && mu.Block().Dominates(c.Block()) || ok && mu.Block() == c.Block() {
-						if sy.InFunc(closure, mu.Value).String() == argS {
-							added = true
-						}
+			for _, m := range g.Nodes {
+				if mu, ok := m.Instr.(*ssa.MapUpdate); ok {
+					if xs.InCtx(m.Ctx, mu.Value).String() == argS && (g.ReachableFrom(m, nil)[c] || g.ReachableFrom(c, nil)[m]) {
+						added = true
 					}
 				}
 			}
 			if okL && !added {
-				ob2.Fail(e.where(c), "the process recursed into ("+trunc(argS, 80)+") is not added to the closure")
+				ob2.Fail(g.Where(c), "the process recursed into ("+trunc(argS, 80)+") is not added to the closure")
 			} else if okL {
-				ob2.OK(e.where(c), "adds and recurses into "+trunc(argS, 100))
+				ob2.OK(g.Where(c), "adds and recurses into "+trunc(argS, 100))
 			}
-			// guard: visited test on the same process
-			gs := guardsOf(sy, closure, c)
-			// expect a guard of the form !$procs[invoke:Name(<arg>)]#1  (comma-ok lookup negated) or identity test
+			// visited guard on the same process, anywhere on the chain inside the innermost traversal loop
+			var gs []string
+			if len(las) > 0 {
+				gs = e.chainGuards(g, c, las[0])
+			}
 			nameOfArg := "invoke:Name(" + argS + ")"
-			visited := false
-			wrongKey := ""
-			for _, gd := range strings.Split(gs, " && ") {
-				gd = strings.TrimSpace(gd)
-				if strings.Contains(gd, "[") && strings.Contains(gd, "]#1") || strings.Contains(gd, "nil") && strings.Contains(gd, "[") {
+			visited, wrongKey := false, ""
+			for _, gd := range gs {
+				isLookup := strings.Contains(gd, "[") && (strings.Contains(gd, "]#1") || strings.Contains(gd, "nil"))
+				if isLookup {
 					if strings.Contains(gd, nameOfArg) {
 						visited = true
 					} else if strings.Contains(gd, "invoke:Name(") {
 						wrongKey = gd
 					}
 				}
-				if strings.Contains(gd, "op!=") && strings.Contains(gd, argS) && strings.Contains(gd, "$proc") {
+				if (strings.Contains(gd, "op!=") || strings.HasPrefix(gd, "!op==")) && strings.Contains(gd, argS) {
 					visited = true // identity test against the current process
 				}
 			}
 			switch {
 			case visited:
-				ob3.OK(e.where(c), "guarded by "+trunc(gs, 140))
+				ob3.OK(g.Where(c), "guarded by "+trunc(strings.Join(gs, " && "), 140))
 			case wrongKey != "":
-				ob3.Fail(e.where(c), "the visited test looks up another process than the one recursed into: guard "+trunc(wrongKey, 160)+" vs recursion into "+trunc(argS, 80)+" (upstream processes reached through this port are skipped once their consumer is in the set)")
+				ob3.Fail(g.Where(c), "the visited test looks up another process than the one recursed into: guard "+trunc(wrongKey, 160)+" vs recursion into "+trunc(argS, 80)+" (upstream processes reached through this port are skipped once their consumer is in the set)")
 			default:
-				ob3.Fail(e.where(c), "the recursion into "+trunc(argS, 80)+" is not guarded by a visited test: a process that is upstream of itself (InParamPort.FromStr connects a feeder port owned by the consumer) makes RunTo recurse until the stack overflows")
+				ob3.Fail(g.Where(c), "the recursion into "+trunc(argS, 80)+" is not guarded by a visited test: a process that is upstream of itself (InParamPort.FromStr connects a feeder port owned by the consumer) makes RunTo recurse until the stack overflows")
 			}
 		}
+		if n0 == 0 {
+			ob2.Fail(core.FuncName(rtp), "the traversal does not recurse through the "+kind.key+": processes connected only through such ports are missing from the RunTo closure (their consumers block forever)")
+			ob3.Unknown(core.FuncName(rtp), "no recursion for this port kind")
+		}
 	}
-	_ = fmt.Sprint
 }
